@@ -457,7 +457,8 @@ def tlc(module: str, cfg: str, workdir: Path | None = None, workers: int | str =
     for p in SPEC.glob("*.tla"):
         shutil.copyfile(p, work / p.name)
     cfgsrc = SPEC / "cfg" / cfg
-    shutil.copyfile(cfgsrc, work / cfgsrc.name)
+    if not (files and cfg in files):
+        shutil.copyfile(cfgsrc, work / cfgsrc.name)
     for name, content in (files or {}).items():
         if isinstance(content, (bytes, bytearray)):
             (work / name).write_bytes(content)
